@@ -1076,3 +1076,44 @@ fn issuer_keyid_case() {
     }
 }
 sproof!(c15_issuer_keyid, 10, { issuer_keyid_case() });
+
+/// certification alignment: the rule binds the *signer's* key version to the signature version; the
+/// signee may be of either version (a v4 key may certify a v6 key's user id and vice versa)
+fn c15_cert_alignment(sig_v6: bool) {
+    let signer_v6: bool = kani::any();
+    let signee_v6: bool = kani::any();
+    let body: [u8; 3] = kani::any();
+    let id_b: [u8; 3] = kani::any();
+    let t: u32 = kani::any();
+    let tb = t.to_be_bytes();
+    let wire = [5, 2, tb[0], tb[1], tb[2], tb[3], 3, 101, 1, 2];
+    let salt = SALT16;
+    let mut rt = RefT::new();
+    if sig_v6 {
+        rt.put_all(&salt);
+    }
+    rt.key(signee_v6, &body);
+    rt.put(0xb4);
+    rt.be32(3);
+    rt.put_all(&id_b);
+    rt.sig_fields(sig_v6, 0x13, 1, 8, &wire);
+    let (hashed, _) = hashed_area::<true>(t, 101, false, 1, 2);
+    mk_cfg!(cfg, harr, ustore, sig_v6, SignatureType::CertPositive, 1u8, salt, hashed);
+    let signer = MockKey::<3>::new(if signer_v6 { KeyVersion::V6 } else { KeyVersion::V4 }, kani::any(), 7);
+    let signee = MockKey::<3>::new(if signee_v6 { KeyVersion::V6 } else { KeyVersion::V4 }, body, 9);
+    let id = IdBody::<3>(id_b);
+    match rt.digest(HashAlgorithm::Sha256) {
+        None => assert!(false),
+        Some(w) => {
+            expect_digest(&w);
+            let vs = mk_sig(cfg, [w[0], w[1]]);
+            let ok = is_okf(vs.verify_third_party_certification(&*signee, &*signer, Tag::UserId, &id));
+            kani::cover!(ok && signee_v6 != signer_v6, "cross-version third-party certification accepted");
+            assert!(ok == (signer_v6 == sig_v6), "C15: certification accepted/rejected against the signer-version <-> signature-version rule");
+            core::mem::forget(vs);
+            core::mem::forget(w);
+        }
+    }
+}
+sproof!(c15_align_cert_v4sig, 10, { c15_cert_alignment(false) });
+sproof!(c15_align_cert_v6sig, 10, { c15_cert_alignment(true) });
